@@ -36,6 +36,9 @@ var causes = []struct {
 	// transient failures that are further apart than the retry window: the
 	// attempt budget is per window, so they must be recovered from indefinitely
 	{"spaced-transient-failures", "transient-spaced"},
+	// a fatal cause (failed dead-lettering) that strikes while the server's
+	// graceful shutdown is draining the pipeline: still degraded, with the cause
+	{"fatal-during-shutdown", "fatal"},
 	{"user-stop-drain-error", "stopped"},
 	{"stop-all-drain-error", "stopped"},
 }
@@ -129,6 +132,21 @@ func gen(seed int64, tier string, idx int) *pipe.Scenario {
 		sc.RecMaxRetries = int64(1 + g.R.Intn(2))
 		sc.RecWindowUs = 20000
 		sc.PersistDelayUs = 200
+	case "fatal-during-shutdown":
+		sc.Topo.Dests = sc.Topo.Dests[:1]
+		d0 = &sc.Topo.Dests[0]
+		d0.Procs = nil
+		d0.Dst.NackPermille = 0
+		d0.Dst.NackIdx = map[int]bool{}
+		for k := 8; k < 200; k += 2 + g.R.Intn(3) {
+			d0.Dst.NackIdx[k] = true
+		}
+		// in-flight records drain slowly, so that some are still unconfirmed when
+		// the shutdown begins
+		d0.Dst.LatencyUs = []int{3000, 6000}
+		sc.Topo.DLQWindow, sc.Topo.DLQThresh = 0, 0
+		sc.Topo.DLQ.NackPermille = 1000
+		sc.Steps = []pipe.Step{{AtEvent: 25 + g.R.Intn(40), Op: "stopall"}, {AtEvent: 0, Op: "wait"}}
 	case "user-stop-drain-error":
 		d0.Dst.CallErr = map[string]string{"Teardown#1": "vf transient teardown error"}
 		sc.Steps = []pipe.Step{{AtEvent: at, Op: "stopwait"}}
@@ -357,6 +375,20 @@ func judge(out *pipe.Outcome, ix *pipe.Index) pipe.Verdict {
 
 	switch class {
 	case "fatal":
+		if cause == "fatal-during-shutdown" {
+			// the cause manifests when the DLQ rejects a dead-letter write, whatever
+			// status the engine then chooses
+			manifested = false
+			for i := range evs {
+				if evs[i].Kind == rig.KDstAck && evs[i].Role == "dlq" {
+					for _, a := range evs[i].Acks {
+						if a.Err != "" {
+							manifested = true
+						}
+					}
+				}
+			}
+		}
 		if !manifested {
 			v.Inconclusive = "the fatal cause did not manifest in this run"
 			break
